@@ -164,6 +164,27 @@ def enum_collision_document() -> dict:
     return gen.mkdoc(schemas=schemas, paths=paths, title="Enum collisions")
 
 
+def defaults_corner_document() -> dict:
+    """Defaults in corners: enum default inherited through an allOf that narrows the enum; path parameters with and without defaults; defaults on every parameter location."""
+    S = {"type": "string"}
+    def e(vals, default=None):
+        return {"type": "string", "enum": vals, **({"default": default} if default else {})}
+    schemas = {
+        "Parent": {"type": "object", "properties": {"status": e(["a", "b", "c"], "a"), "n": {"type": "integer", "default": 3}}},
+        "Child": {"allOf": [{"$ref": "#/components/schemas/Parent"}, {"type": "object", "properties": {"status": e(["a", "b"])}}]},
+        "Child2": {"allOf": [{"$ref": "#/components/schemas/Parent"}, {"type": "object", "properties": {"status": e(["a", "b"], "b"), "n": {"type": "integer"}}}]},
+    }
+    paths = {
+        "/d/{a}/{b}": {"get": {"operationId": "pathDefaults", "parameters": [{"name": "a", "in": "path", "required": True, "schema": {"type": "string", "default": "x"}},
+                                                                               {"name": "b", "in": "path", "required": True, "schema": S},
+                                                                               {"name": "q", "in": "query", "required": True, "schema": {"type": "integer", "default": 1}},
+                                                                               {"name": "r", "in": "query", "required": True, "schema": S},
+                                                                               {"name": "h", "in": "header", "schema": {"type": "boolean", "default": True}},
+                                                                               {"name": "c", "in": "cookie", "schema": {"type": "string", "default": "ck"}}],
+                               "responses": {"200": {"description": "d", "content": {"application/json": {"schema": {"$ref": "#/components/schemas/Child"}}}}}}}}
+    return gen.mkdoc(schemas=schemas, paths=paths, title="Defaults corner")
+
+
 def run(rep) -> None:
     quick = rep.tier == "quick"
     rnd = random.Random(seed() * 1069 + 1)
@@ -193,6 +214,7 @@ def run(rep) -> None:
         docs["hostile-names"] = hostile_document(HOSTILE)
         docs["reserved-names"] = reserved_named_document()
         docs["enum-collisions"] = enum_collision_document()
+        docs["defaults-corner"] = defaults_corner_document()
         for name, rdoc in c12.rich_documents().items():
             if name in ("rich", "baseline_openapi_3.0.json") or not quick:
                 docs["doc:" + name] = rdoc
